@@ -66,6 +66,9 @@ Proof.
   - intros H. destruct (mget k m) eqn:E; [|reflexivity]. apply mget_in_keys in E. contradiction.
 Qed.
 
+Lemma forallb_ext' {A} (f g : A -> bool) l : (forall x, f x = g x) -> forallb f l = forallb g l.
+Proof. intros H. induction l as [|x l IH]; simpl; [reflexivity|]. now rewrite H, IH. Qed.
+
 (* ---------- mem ------------------------------------------------------------------------------- *)
 
 Lemma mem_In x l : mem x l = true <-> In x l.
